@@ -106,6 +106,20 @@ Theorem C11_valset_nonempty_invariant_refuted :
   valset_epoch_end 100 3 (fold_left vstep h_all_jailed v3) = None.
 Proof. exact valset_empty_witnesses. Qed.
 
+(* operator commission: the validation of RegisterOperatorReq (stakingtypes CommissionRates.Validate, transcribed) admits
+   only rates in [0,1]; every history of registrations keeps "every stored rate is in [0,1]"; under it the split
+   tokens - tokens*rate of AllocateTokensToValidator never goes negative; a stored rate of 2 would panic in BeginBlock *)
+Theorem C11_commission_valid_range : forall r m ch, commission_valid r m ch = true -> 0 <= r <= P.
+Proof. exact commission_valid_range. Qed.
+Theorem C11_commission_invariant : forall regs : list (Z * Z * Z),
+  rates_ok (fold_left (fun st x => register_operator (fst (fst x)) (snd (fst x)) (snd x) st) regs []) = true.
+Proof. exact registry_history_rates_ok. Qed.
+Theorem C11_validator_split_no_panic : forall tokens rate, 0 <= tokens -> 0 <= rate <= P ->
+  is_panic (validator_split tokens rate) = false.
+Proof. exact validator_split_no_panic. Qed.
+Theorem C11_commission_guard_is_needed : validator_split (1000 * P) (2 * P) = Panic.
+Proof. exact commission_above_one_panics. Qed.
+
 (* the full statement - no history halts the chain - is therefore NOT proved: the event set of [run] leaves out the
    arithmetic overflow guards of sdk.Int / LegacyDec (refuted above for the voting power), the empty validator set
    (refuted above) and everything listed as not modelled in design/C11.md *)
